@@ -26,7 +26,7 @@ ENGINE_ARTEFACTS = [
 
 # per-loop unwind bounds (regex on the mangled loop id -> bound), used by the `unwindset` groups
 _MOCK_RULES = [
-    [r"11find_region", 4], [r"10try_access", 5], [r"MockMem5owner", 4], [r"MockMem3run", 9], [r"any_layout", 4],
+    [r"11find_region", 4], [r"10try_access", 5], [r"MockMem5owner", 4], [r"MockMem3run", 9], [r"c03.*write_then_read_obj", 4], [r"any_layout", 4],
     [r"10MockRegion.*(5write|4read)\.", 8],
     [r"19copy_slice_volatile", 9],
 ]
@@ -194,7 +194,7 @@ PROPS["C18"] = {
 PROPS["C03"] = {
     "groups": [
         # L1: real try_access + blanket Bytes<GuestAddress> over the contract-level mock, symbolic layouts
-        {"crate": "std", "quick": ["c03::r1", "c03::r2::write", "c03::r2::read"], "thorough": ["c03::r2", "c03::r3"],
+        {"crate": "std", "quick": ["c03::r1", "c03::r2::write", "c03::r2::read", "c03::hist::r1"], "thorough": ["c03::r2", "c03::r3", "c03::hist::r2"],
          "jobs": 6, "mem_gb": 10, "timeout_s": 1200, "timeout_thorough_s": 3600,
          "unwindset": {"default": 5, "rules": _MOCK_RULES}},
         # L2: the real GuestRegionMmap satisfies the region contract
